@@ -153,7 +153,7 @@ _HQ = {}
 def has_quant(t):
     k = t.get_id()
     if k in _HQ:
-        return _HQ[k]
+        return _HQ[k][1]
     r = False
     todo = [t]
     seen = set()
@@ -170,5 +170,5 @@ def has_quant(t):
             r = True
             break
         todo.extend(x.children())
-    _HQ[k] = r
+    _HQ[k] = (t, r)      # the term is kept alive: z3 recycles the ids of collected ASTs
     return r
